@@ -75,4 +75,17 @@ ENTRIES["C19"] = {"category": "other", "technique": "frame / ownership condition
                   "text": "618 obligations on the current tree: no function writes module-level or class-level state or uses a module-level mutable object other than read-only, no mutable defaults, LDAPSession/LDAPClient.__init__ create every "
                           "mutable field in that activation, *Options objects have no hidden state and dispatchers never write to them, register_* appends to self._packing_options.<kind>.choices after the duplicate test. "
                           "Bounded: 3 session groups x 63 interleavings with half-failing calls; custom filter/control/credential registered before and after first traffic versus an unregistered session."}
+_MSG_NOTE = ("The byte layer (every TLV, integer, boolean, length form) is proved for all values under C07. The per-message node-level contracts are evaluated, not yet discharged: bounded and labelled so. "
+             "Oracle: /verif/specs/rfc4511.py, an independent codec transcribed from RFC 4511 Appendix B (its canonical encode / strict decode are cross-checked against each other on every run).")
+ENTRIES.update({
+    "C01": {"category": "other", "technique": "contract unpack(pack(m)) == m on the real functions evaluated over a bounded message set; byte layer proved (C07)", "note": _MSG_NOTE,
+            "text": "587 messages per quick run (all nine kinds, every field over its boundary classes, 20 filter shapes incl. every choice and empty lists, 12 control lists incl. the three known types, both credential choices, unknown result codes): "
+                    "decoded value equal in every field (result codes compared by carried value, known controls modulo their exposed raw value), reader exhausted, re-encoding byte-identical."},
+    "C03": {"category": "other", "technique": "contract strict_rfc4511_decode(pack(m)) == abstract(m) against an independent codec written from the RFC, evaluated over a bounded message set; primitive encodings proved (C07)", "note": _MSG_NOTE,
+            "text": "The independent strict decoder checks class, number and primitive/constructed form of every element, minimal definite lengths, minimal INTEGERs, TRUE = FF, omitted defaults / absent optionals, and must recover the abstract message. "
+                    "One listed known finding: UnbindRequest is emitted with the constructed bit (0x62); everything else of unbind messages is checked with that octet repaired."},
+    "C04": {"category": "other", "technique": "byte-level acceptance of every definite length form / any non-zero TRUE proved (C07); message-level contract evaluated over message set x encoding freedoms", "note": _MSG_NOTE,
+            "text": "Each message is re-encoded by the independent encoder with extra length octets at every node (incl. the fixed 4-octet lengths of Active Directory), TRUE as 01 / 80 / 7F, explicitly encoded DEFAULT values, and unknown trailing elements after the defined components; "
+                    "the library must decode all of them to the same message."},
+})
 NOT_APPLICABLE = {}
